@@ -129,6 +129,9 @@ func c01config(c *Check, rng *rand.Rand, name string, opt EnvOpt, ncases int) {
 			script.Forget(r.Keys...)
 		}
 	}
+	// a reader that alternates between reading and not reading: the order of the bytes
+	// in the outbound backlog is the order of the replies
+	c02stopAndGo(c, env, script, int64(ncases)+int64(len(name)), name)
 	c.Count("race_reports_diagnostic_"+name, int64(env.P.RaceReports()))
 }
 
